@@ -101,8 +101,7 @@ def ref_client(seat, team, scenario, net, log, fault=None, state=None, sock=None
                 if actor == seat:
                     text = fmt.action(PR.call_text(seat, call)) + fmt.alerts.get(f'{bi}:{i}', '')
                     if fault and fault['board'] == bi and fault['phase'] == 'auction' and fault['pos'] == i:
-                        c.send(fault['text'])
-                        _drain(c)
+                        _offend(c, fault)
                         return
                     c.send(text)
                 else:
@@ -122,8 +121,7 @@ def ref_client(seat, team, scenario, net, log, fault=None, state=None, sock=None
                             c.recv()                         # "<Seat> to lead" / "Dummy to lead"
                         text = fmt.action(PR.card_text(actor, card, fmt.suit_first[seat]))
                         if fault and fault['board'] == bi and fault['phase'] == 'play' and fault['pos'] == j:
-                            c.send(fault['text'])
-                            _drain(c)
+                            _offend(c, fault)
                             return
                         c.send(text)
                     else:
@@ -142,12 +140,22 @@ def ref_client(seat, team, scenario, net, log, fault=None, state=None, sock=None
         sock.close()
 
 
+def _offend(c, fault):
+    """The scripted fault: an offending message, or (real operator-interrupt check) an action performed instead of the
+    seat's message while the table manager waits for it."""
+    if callable(fault.get('action')):
+        fault['action']()
+    else:
+        c.send(fault['text'])
+    _drain(c)
+
+
 def _drain(c):
     """After an offending message: read whatever the server still sends until it hangs up."""
     try:
         for _ in range(200):
             c.recv()
-    except ClientFailure:
+    except (ClientFailure, OSError):
         pass
 
 
